@@ -17,6 +17,7 @@ import (
 	"strconv"
 	"strings"
 	"sync"
+	"sync/atomic"
 	"testing"
 	"time"
 )
@@ -120,10 +121,17 @@ func enumPlan(prop, tier string, seed uint64) []enumCase {
 			if prop == "C17" {
 				whens = []int{0, 1, 2, 3} // four malformed payloads per index (payload drawn from the fault stream)
 			}
+			stalls := []int{0}
+			switch k {
+			case stopCancel, stopHandlerErr, stopMapperErr, stopMapperMiscount:
+				stalls = []int{0, 1}
+			}
 			for at := 0; at <= hi; at++ {
 				for pacing := 0; pacing <= 1; pacing++ {
 					for _, w := range whens {
-						out = append(out, enumCase{hs, EnumSpec{Kind: int(k), At: at, Pacing: pacing, When: w}})
+						for _, st := range stalls {
+							out = append(out, enumCase{hs, EnumSpec{Kind: int(k), At: at, Pacing: pacing, When: w, Stall: st}})
+						}
 					}
 				}
 			}
@@ -236,7 +244,28 @@ func TestWorker(t *testing.T) {
 		b = append(b, bytes.Repeat([]byte{' '}, 8)...)
 		cur.WriteAt(append(b, '\n'), 0)
 	}
+	var beat atomic.Int64
+	go func() {
+		last, lastAt := int64(-1), time.Now()
+		for {
+			time.Sleep(2 * time.Second)
+			b := beat.Load()
+			if b != last {
+				last, lastAt = b, time.Now()
+				continue
+			}
+			if time.Since(lastAt) > time.Duration(envInt("VSIM_CASE_TIMEOUT_S", 90))*time.Second {
+				buf := make([]byte, 1<<20)
+				n := runtime.Stack(buf, true)
+				fmt.Fprintf(os.Stderr, "WATCHDOG: one case has been running for more than %v\n%s\n", time.Since(lastAt), buf[:n])
+				os.Exit(3)
+			}
+		}
+	}()
+	zone := envInt("VSIM_ZONE", w)
 	runOne := func(spec CaseSpec) {
+		spec.Zone = zone
+		beat.Add(1)
 		writeCur(&spec)
 		res := RunCase(t, spec)
 		out.Cases++
@@ -367,7 +396,33 @@ func TestReplay(t *testing.T) {
 		fmt.Println("cannot parse replay file:", err)
 		os.Exit(2)
 	}
-	setZone(envInt("VSIM_ZONE", zoneOfSeed(rf.Spec)))
+	if rf.ProcessDied && os.Getenv("VSIM_REPLAY_CHILD") != "1" {
+		cmd := limitedCommand(os.Args[0], "-test.run", "^TestReplay$", "-test.count", "1", "-test.timeout", "5m")
+		cmd.Env = append(os.Environ(), "VSIM_REPLAY_CHILD=1", "VSIM_CASE_TIMEOUT_S=60")
+		var stderr bytes.Buffer
+		cmd.Stderr, cmd.Stdout = &stderr, &stderr
+		cmd.Run()
+		cur, _ := json.Marshal(rf.Spec)
+		if v, ok := classifyCrash(rf.Property, cur, stderr.String(), filepath.Join(os.TempDir(), "vsim-replay-scratch")); ok && v.Rule == rf.Rule {
+			os.RemoveAll(filepath.Join(os.TempDir(), "vsim-replay-scratch"))
+			fmt.Printf("REPRODUCED %s/%s: %s\n", v.Property, v.Rule, v.Detail)
+			fmt.Printf("VIOLATION property=%s replay=%s\n", rf.Property, path)
+			os.Exit(1)
+		}
+		os.RemoveAll(filepath.Join(os.TempDir(), "vsim-replay-scratch"))
+		fmt.Printf("NOT REPRODUCED: the case did not kill the process this time\n%s\n", tailStr(stderr.String(), 1500))
+		os.Exit(0)
+	}
+	if rf.ProcessDied {
+		// child: run with a watchdog so that a non-terminating case is reported
+		go func() {
+			time.Sleep(time.Duration(envInt("VSIM_CASE_TIMEOUT_S", 60)) * time.Second)
+			buf := make([]byte, 1<<20)
+			n := runtime.Stack(buf, true)
+			fmt.Fprintf(os.Stderr, "WATCHDOG: one case has been running for more than 60s\n%s\n", buf[:n])
+			os.Exit(3)
+		}()
+	}
 	res := RunCase(t, rf.Spec)
 	if res.Harness != "" {
 		fmt.Println("harness trouble:", res.Harness)
@@ -388,6 +443,13 @@ func TestReplay(t *testing.T) {
 }
 
 func zoneOfSeed(spec CaseSpec) int { return 0 }
+
+func tailStr(s string, n int) string {
+	if len(s) > n {
+		return s[len(s)-n:]
+	}
+	return s
+}
 
 // ---------------------------------------------------------------------------
 // driver
@@ -452,6 +514,15 @@ func tierBudget(prop, tier string) time.Duration {
 	return 20 * time.Second
 }
 
+// limitedCommand runs a worker under an address-space limit: a library bug
+// that allocates without bound must kill that worker (and be reported), not
+// the machine.
+func limitedCommand(bin string, args ...string) *exec.Cmd {
+	kb := envInt("VSIM_WORKER_VMEM_KB", 3500000)
+	script := fmt.Sprintf("ulimit -v %d; exec \"$0\" \"$@\"", kb)
+	return exec.Command("/bin/bash", append([]string{"-c", script, bin}, args...)...)
+}
+
 // selfTest runs the same cases in fresh processes under different GOMAXPROCS
 // (and once more at the same setting) and demands identical trace hashes.
 func selfTest(verifDir, prop, tier string, seed uint64, n int, procs []int) (bool, string) {
@@ -471,7 +542,7 @@ func selfTest(verifDir, prop, tier string, seed uint64, n int, procs []int) (boo
 				return
 			}
 			defer os.RemoveAll(dir)
-			cmd := exec.Command(os.Args[0], "-test.run", "^TestWorker$", "-test.count", "1", "-test.timeout", "0")
+			cmd := limitedCommand(os.Args[0], "-test.run", "^TestWorker$", "-test.count", "1", "-test.timeout", "0")
 			cmd.Env = append(os.Environ(), "VSIM_MODE=worker", "VSIM_WORKER=0", "VSIM_WORKERS=1", "VSIM_OUTDIR="+dir,
 				"VSIM_REPLAYDIR="+filepath.Join(dir, "replays"), "VSIM_HASHES=1", fmt.Sprintf("VSIM_MAXCASES=%d", n),
 				"VSIM_TIER="+tier, "VSIM_PROP="+prop, fmt.Sprintf("GOMAXPROCS=%d", gmp), fmt.Sprintf("VERIF_SEED=%d", seed),
@@ -546,6 +617,9 @@ func driverMain() int {
 	}
 	defer os.RemoveAll(outDir)
 	replayDir := filepath.Join(verifDir, "replays")
+	if d := os.Getenv("VSIM_REPLAYS"); d != "" {
+		replayDir = d // sensitivity runs keep their scratch replays elsewhere
+	}
 	budget := tierBudget(prop, tier)
 	fmt.Printf("VERIF_SEED=%d property=%s tier=%s workers=%d budget=%v\n", seed, prop, tier, nw, budget)
 
@@ -561,7 +635,7 @@ func driverMain() int {
 		wg.Add(1)
 		go func(w int) {
 			defer wg.Done()
-			cmd := exec.Command(os.Args[0], "-test.run", "^TestWorker$", "-test.count", "1", "-test.timeout", "0")
+			cmd := limitedCommand(os.Args[0], "-test.run", "^TestWorker$", "-test.count", "1", "-test.timeout", "0")
 			cmd.Env = append(os.Environ(), "VSIM_MODE=worker", fmt.Sprintf("VSIM_WORKER=%d", w), fmt.Sprintf("VSIM_WORKERS=%d", nw),
 				"VSIM_OUTDIR="+outDir, "VSIM_REPLAYDIR="+replayDir, fmt.Sprintf("VSIM_BUDGET_MS=%d", budget.Milliseconds()),
 				"VSIM_TIER="+tier, "GOMAXPROCS=2", fmt.Sprintf("VERIF_SEED=%d", seed))
@@ -686,7 +760,9 @@ func driverMain() int {
 		}
 	}
 	wall := time.Since(start).Seconds()
-	writeEvidence(verifDir, prop, tier, seed, total, len(distinct), unknown, len(knownHit), wall, nw, raceStats, total.ClassCount)
+	if os.Getenv("VSIM_NO_EVIDENCE") != "1" {
+		writeEvidence(verifDir, prop, tier, seed, total, len(distinct), unknown, len(knownHit), wall, nw, raceStats, total.ClassCount)
+	}
 	fmt.Printf("property=%s tier=%s cases=%d (enumerated %d of %d) runs=%d steps=%d distinct_nontrivial=%d violations=%d known=%d wall=%.1fs exit=%d\n",
 		prop, tier, total.Cases, total.EnumCases, total.EnumTotal, total.Stats.Runs, total.Stats.Steps, len(distinct), unknown, len(knownHit), wall, exit)
 	return exit
@@ -695,44 +771,82 @@ func driverMain() int {
 // classifyCrash decides whether a dead worker was killed by a panic in library
 // code (a violation) or by harness trouble.
 func classifyCrash(prop string, cur []byte, stderr, replayDir string) (ViolationOut, bool) {
+	rule := "panic"
 	idx := strings.Index(stderr, "panic: ")
-	if idx < 0 {
-		idx = strings.Index(stderr, "fatal error: ")
+	if i := strings.Index(stderr, "fatal error: "); i >= 0 && (idx < 0 || i < idx) {
+		idx = i
+		if j := strings.LastIndex(stderr[:i], "runtime: out of memory"); j >= 0 {
+			idx = j
+		}
 	}
-	if idx < 0 {
-		return ViolationOut{}, false
-	}
-	body := stderr[idx:]
-	// the panicking goroutine is the first one printed; find its first non-runtime frame
-	lines := strings.Split(body, "\n")
 	firstFrame := ""
-	for _, l := range lines[1:] {
-		l = strings.TrimSpace(l)
-		if l == "" || strings.HasPrefix(l, "goroutine ") || strings.HasPrefix(l, "[") || strings.HasPrefix(l, "/") {
-			continue
+	body := ""
+	if idx >= 0 {
+		body = stderr[idx:]
+		// the failing goroutine is the first one printed; find its first non-runtime frame
+		seenG := false
+		for _, l := range strings.Split(body, "\n")[1:] {
+			l = strings.TrimSpace(l)
+			if strings.HasPrefix(l, "goroutine ") {
+				if seenG {
+					break
+				}
+				seenG = true
+				continue
+			}
+			if l == "" || strings.HasPrefix(l, "[") || strings.HasPrefix(l, "/") || strings.HasPrefix(l, "fatal error") {
+				continue
+			}
+			if strings.HasPrefix(l, "runtime.") || strings.HasPrefix(l, "panic(") || strings.HasPrefix(l, "internal/") || strings.HasPrefix(l, "runtime:") {
+				continue
+			}
+			firstFrame = l
+			break
 		}
-		if strings.HasPrefix(l, "runtime.") || strings.HasPrefix(l, "panic(") || strings.HasPrefix(l, "internal/") {
-			continue
+	} else if w := strings.Index(stderr, "WATCHDOG: "); w >= 0 {
+		// a case that never ends: attributable if a running/runnable goroutine is in library code
+		rule = "hang"
+		body = stderr[w:]
+		for _, g := range strings.Split(body, "\n\n") {
+			lines := strings.Split(g, "\n")
+			if len(lines) < 2 || !(strings.Contains(lines[0], "[running") || strings.Contains(lines[0], "[runnable")) {
+				continue
+			}
+			for _, l := range lines[1:] {
+				l = strings.TrimSpace(l)
+				if libFrame(l) {
+					firstFrame = l
+					break
+				}
+			}
+			if firstFrame != "" {
+				break
+			}
 		}
-		firstFrame = l
-		break
+	} else {
+		return ViolationOut{}, false
 	}
 	if !libFrame(firstFrame) {
 		return ViolationOut{}, false
 	}
+	if j := strings.Index(firstFrame, "("); j > 0 && strings.HasSuffix(firstFrame, ")") {
+		if k := strings.LastIndex(firstFrame, "("); k > 0 {
+			firstFrame = firstFrame[:k]
+		}
+	}
 	var spec CaseSpec
 	json.Unmarshal(bytes.TrimSpace(cur), &spec)
-	v := Violation{Property: prop, Rule: "panic", Detail: firstLine(body) + " in " + firstFrame}
-	rf := ReplayFile{Property: prop, Rule: "panic", Detail: v.Detail, Spec: spec, ProcessDied: true}
+	v := Violation{Property: prop, Rule: rule, Detail: "the worker process died: " + firstLine(body) + " in " + firstFrame}
+	rf := ReplayFile{Property: prop, Rule: rule, Detail: v.Detail, Spec: spec, ProcessDied: true}
 	if len(body) > 4000 {
 		body = body[:4000]
 	}
 	rf.Stderr = body
 	b, _ := json.MarshalIndent(rf, "", " ")
 	os.MkdirAll(replayDir, 0o755)
-	path := filepath.Join(replayDir, fmt.Sprintf("%s-panic-%d-%016x.json", prop, spec.Seed, hashStrings(string(b))))
+	path := filepath.Join(replayDir, fmt.Sprintf("%s-%s-%d-%016x.json", prop, rule, spec.Seed, hashStrings(string(b))))
 	os.WriteFile(path, b, 0o644)
-	return ViolationOut{prop, "panic", v.Detail, path, spec.Seed}, true
+	return ViolationOut{prop, rule, v.Detail, path, spec.Seed}, true
 }
 
 var propLevels = map[string]string{"C01": "exploration", "C02": "exploration", "C03": "exploration", "C04": "fault_enumeration",
